@@ -171,6 +171,23 @@ class Vec(metaclass=Meta):
         raise {"k": KeyError, "v": ValueError, "z": ZeroDivisionError, "i": IndexError, "t": TypeError}[kind]("boom", kind)
 
 
+class Color(metaclass=Meta):
+    """a class whose metaclass defines special methods (like Enum classes) and that defines none of them itself"""
+    RED = 1
+
+    def __init__(self, *xs):
+        self.xs = list(xs)
+
+    def __repr__(self):
+        return "Color%r" % (tuple(self.xs),)
+
+    def boom(self, kind):
+        raise KeyError(kind)
+
+    def size(self):
+        return len(self.xs)
+
+
 def plain_small(rng):
     return rng.choice([0, 1, -1, 2, 3, 7, 255, 2.5, "a", "bc", b"x", None, True, (1, 2), ("a", (1,)), 10 ** 20, -0.0, "é"])
 
@@ -313,7 +330,7 @@ def steps_cls(rng, mode):
     n = rng.randrange(-3, 9)
     steps = [
         ("describe", lambda o, e: o.describe()), ("instantiate", lambda o, e: o(n, 2)), ("instantiate_empty", lambda o, e: o()),
-        ("name", lambda o, e: o.__name__), ("call_bad", lambda o, e: o(n).boom("k")), ("inst_len", lambda o, e: len(o(n, n, n))),
+        ("name", lambda o, e: o.__name__), ("call_bad", lambda o, e: o(n).boom("k")), ("inst_len", lambda o, e: o(n, n, n).size()), ("attr", lambda o, e: o.RED),
         ("missing", lambda o, e: o.nosuch), ("meta_len", lambda o, e: len(o)), ("meta_getitem", lambda o, e: o["x"]),
         ("meta_contains", lambda o, e: ("m" in o, "z" in o)), ("inst_str", lambda o, e: str(o(n))), ("inst_repr", lambda o, e: repr(o(n, 1))),
     ]
@@ -332,14 +349,19 @@ def steps_file(rng, mode):
     return public
 
 
+def steps_cls_shadowed(rng, mode):
+    return [("meta_len", lambda o, e: len(o)), ("meta_contains", lambda o, e: "m" in o)]
+
+
 KINDS = {
+    "cls_shadowed": (lambda rng: Vec, steps_cls_shadowed),
     "list": (lambda rng: [plain_small(rng) for _ in range(rng.randrange(0, 6))], steps_list),
     "dict": (lambda rng: {hashable_small(rng): plain_small(rng) for _ in range(rng.randrange(0, 5))}, steps_dict),
     "set": (lambda rng: {hashable_small(rng) for _ in range(rng.randrange(0, 5))}, steps_set),
     "bytearray": (lambda rng: bytearray(rng.getrandbits(8) for _ in range(rng.randrange(0, 6))), steps_bytearray),
     "deque": (lambda rng: collections.deque([plain_small(rng) for _ in range(rng.randrange(0, 5))], rng.choice([None, 4])), steps_deque),
     "vec": (lambda rng: Vec(*[rng.randrange(-3, 9) for _ in range(rng.randrange(0, 4))]), steps_vec),
-    "cls": (lambda rng: Vec, steps_cls),
+    "cls": (lambda rng: Color, steps_cls),
 }
 
 
@@ -368,6 +390,8 @@ def view(x, depth=0):
             return (cname, bytes(list(x)))
         if cname == "Vec":
             return ("Vec", tuple(view(i, depth + 1) for i in x), repr(x))      # read through permitted operations only
+        if cname == "Color":
+            return ("Color", repr(x))
     except Exception as e:
         return ("unreadable", cname, type(e).__name__)
     r = repr(x)
@@ -383,7 +407,7 @@ def builtin_of(e):
 
 
 def snapshot(kind, obj):
-    if kind == "cls":
+    if kind in ("cls", "cls_shadowed"):
         return sorted(k for k in obj.__dict__ if not k.startswith("__"))
     if kind == "vec":
         return (view(obj), obj.entered, sorted(k for k in obj.__dict__))
@@ -396,7 +420,7 @@ def snapshot(kind, obj):
 def run_sequence(ctx, rng, pair, mode, kind, idx):
     a, b = pair.a, pair.b
     make, stepgen = KINDS[kind]
-    if kind == "cls" and mode != "classic":      # class attributes such as __name__ / __call__ are not permitted elsewhere
+    if kind in ("cls", "cls_shadowed") and mode != "classic":      # class attributes such as __name__ / __call__ are not permitted elsewhere
         kind = "vec"
         make, stepgen = KINDS[kind]
     target = make(rng)
@@ -428,6 +452,10 @@ def run_sequence(ctx, rng, pair, mode, kind, idx):
             ok = issubclass(got[1], want[1])
         else:
             ok = got == want
+        if not ok and kind == "cls_shadowed":
+            bad.append(("metaclass-special-method-shadowed", "len(proxy of a class) calls the class's own __len__ function (TypeError) when both the "
+                        "metaclass and the class define __len__; on the target the metaclass method answers"))
+            break
         if not ok and kind == "bytearray" and name == "radd" and got == ("exc", TypeError):
             # bytes.__add__ reads its right operand through the C buffer protocol, which no Python-level proxy can provide
             bad.append(("needs-buffer-protocol/bytes+proxy", "b'..' + proxy(bytearray) raises TypeError; with the target it concatenates"))
